@@ -77,6 +77,13 @@ class TocCache():
                 logger.warning('Error while parsing cache file [%s]:%s',
                                hit, str(exp))
 
+            # A file can be valid JSON without holding a TOC (groups of elements)
+            if cache_data is not None and not (
+                    isinstance(cache_data, dict) and
+                    all(isinstance(group, dict) for group in cache_data.values())):
+                logger.warning('Cache file [%s] does not hold a TOC', hit)
+                cache_data = None
+
         return cache_data
 
     def insert(self, crc, toc):
